@@ -67,6 +67,10 @@ pub struct Scenario {
     pub calls: Vec<Call>,
     pub faults: Vec<(usize, i32, u8)>,
     pub stdin: Vec<StdinEvent>,
+    /// files that cannot be opened for writing (a state, not a fault); such scenarios only read,
+    /// write and copy, and are not part of the validation against the real file system (the
+    /// checks run as root, which ignores permission bits)
+    pub readonly: Vec<String>,
 }
 
 fn stdin_json(e: &StdinEvent) -> Value {
@@ -95,6 +99,7 @@ impl Scenario {
             "calls": self.calls.iter().map(|c| json!({"func": c.func, "args": c.args, "host": c.host})).collect::<Vec<_>>(),
             "faults": self.faults.iter().map(|(i, e, t)| json!([i, e, t])).collect::<Vec<_>>(),
             "stdin": self.stdin.iter().map(stdin_json).collect::<Vec<_>>(),
+            "readonly": self.readonly,
         })
     }
     pub fn from_json(v: &Value) -> Scenario {
@@ -129,6 +134,7 @@ impl Scenario {
                 .map(|f| (f[0].as_u64().unwrap() as usize, f[1].as_i64().unwrap() as i32, f[2].as_u64().unwrap() as u8))
                 .collect(),
             stdin: v["stdin"].as_array().unwrap().iter().map(stdin_from_json).collect(),
+            readonly: v["readonly"].as_array().map(|a| a.iter().filter_map(|p| p.as_str().map(|s| s.to_string())).collect()).unwrap_or_default(),
         }
     }
 }
@@ -148,6 +154,7 @@ fn make_os(sc: &Scenario) -> SimOs {
         o.faults.insert(*i, FaultSpec { errno: *e, torn: *t });
     }
     o.stdin = sc.stdin.clone();
+    o.readonly = sc.readonly.iter().cloned().collect();
     o
 }
 
@@ -246,6 +253,7 @@ fn execute(sc: &Scenario, osim: SimOs, rep: &mut RunReport) {
             c.nodes = o.nodes.clone();
             c.stdin = o.stdin.clone();
             c.stdin_pos = o.stdin_pos;
+            c.readonly = o.readonly.clone();
             c
         })
         .unwrap();
@@ -533,6 +541,9 @@ fn walk_real(root: &std::path::Path, rel: &str, out: &mut BTreeMap<String, Node>
 /// Runs the (fault-free) call sequence against the model and against real std::fs in a scratch
 /// directory; returns a description of the first difference.
 pub fn validate_model(sc: &Scenario, scratch: &std::path::Path) -> Result<u64, String> {
+    if !sc.readonly.is_empty() {
+        return Ok(0);
+    }
     let mut plain = sc.clone();
     plain.faults.clear();
     plain.calls.retain(|c| c.func.starts_with("fs."));
@@ -582,9 +593,9 @@ fn execute_calls_only(sc: &Scenario) {
 fn boundary_values(t: &Type, rng: &mut Rng, iters: &BTreeMap<String, Variable>) -> Option<Variable> {
     Some(match t {
         Type::Int => Variable::Int(*rng.pick(&[0i64, 1, -1, 2, 63, 64, 255, 256, i64::MAX, i64::MIN, i64::MIN + 1, -255, 1 << 32, 10])),
-        Type::Float => Variable::Float(*rng.pick(&[0.0f64, -0.0, 1.0, -1.5, f64::NAN, f64::INFINITY, f64::NEG_INFINITY, f64::MAX, f64::MIN_POSITIVE, 5e-324, 1e308, 9.2e18, -9.3e18, 0.5])),
+        Type::Float => Variable::Float(*rng.pick(&[0.0f64, -0.0, 1.0, -1.5, f64::NAN, f64::INFINITY, f64::NEG_INFINITY, f64::MAX, f64::MIN_POSITIVE, 5e-324, 1e308, 9.2e18, -9.3e18, 0.5, 1.0 + f64::EPSILON, 1.0 + 4.0 * f64::EPSILON, -1.0 - f64::EPSILON, 1.0 - f64::EPSILON / 2.0, -1.0, 0.9999999999999999, 2.0, -0.5])),
         Type::Bool => Variable::Bool(rng.chance(1, 2)),
-        Type::String => Variable::from(*rng.pick(&["", " ", "abc", "  padded \t\n", "\u{df}\u{130}\u{1F600}", "12", "-7", "1e5", "a,b,,c", "\0", "NaN", "9223372036854775808", "+5", " 5", "1_000", "0x10", "-0", "inf", ".5", "5.", "\u{a0}x\u{a0}", "aXbXc", "X"])),
+        Type::String => Variable::from(*rng.pick(&["", " ", "abc", "  padded \t\n", "\u{df}\u{130}\u{1F600}", "12", "-7", "1e5", "a,b,,c", "\0", "NaN", "9223372036854775808", "+5", " 5", "1_000", "0x10", "-0", "inf", ".5", "5.", "\u{a0}x\u{a0}", "aXbXc", "X", "\u{feff}x\u{feff}", " \u{feff} y", "\u{200b}z\u{200b}", "\u{2028}w\u{3000}"])),
         Type::Void => Variable::Void,
         Type::Any => {
             // values of every shape, incl. cells that are reachable from themselves
@@ -608,6 +619,42 @@ fn boundary_values(t: &Type, rng: &mut Rng, iters: &BTreeMap<String, Variable>) 
         Type::Function(_) => iters.get(&ctype(t))?.clone(),
         _ => return None,
     })
+}
+
+/// Statements of docs/stdlib.md about the DOMAIN of float functions ("NaN if `num` is outside the
+/// range [-1, 1]", "NaN when negative, negative infinity when zero"): only NaN-ness and
+/// infinities are judged, never the last digit of a result.
+fn documented_domain(name: &str, args: &[Variable], val: &Variable) -> Option<String> {
+    let (Some(Variable::Float(x)), Variable::Float(r)) = (args.first(), val) else { return None };
+    let (x, r) = (*x, *r);
+    match name {
+        "math.asin" | "math.acos" => {
+            let outside = x.is_nan() || x.abs() > 1.0;
+            (outside != r.is_nan()).then(|| format!("is {r:?} for {x:?}; documented: NaN exactly when the argument is outside [-1, 1]"))
+        }
+        "math.ln" | "math.log2" | "math.log10" => {
+            if x < 0.0 && !r.is_nan() {
+                Some(format!("is {r:?} for the negative argument {x:?}; documented: NaN"))
+            } else if x == 0.0 && r != f64::NEG_INFINITY {
+                Some(format!("is {r:?} for zero; documented: negative infinity"))
+            } else if x > 0.0 && x.is_finite() && !r.is_finite() {
+                Some(format!("is {r:?} for the positive finite argument {x:?}"))
+            } else {
+                None
+            }
+        }
+        "math.ln_1p" => {
+            if x < -1.0 && !r.is_nan() {
+                Some(format!("is {r:?} for {x:?} < -1; documented: NaN"))
+            } else if x == -1.0 && r != f64::NEG_INFINITY {
+                Some(format!("is {r:?} for -1; documented: negative infinity"))
+            } else {
+                None
+            }
+        }
+        "math.is_nan" => None,
+        _ => None,
+    }
 }
 
 /// What docs/stdlib.md states for the pure helpers, for the argument shapes where the statement is
@@ -797,6 +844,10 @@ pub fn run_table(key_seed: u64, arg_seed: u64) -> RunReport {
                                 }
                                 rep.triples.push(format!("{name}|reference|none"));
                             }
+                            if let Some(msg) = documented_domain(&name, &args, &val) {
+                                rep.violation = Some(("documented-value".into(), format!("std.{name}({}) {msg}", shown.join(", "))));
+                                return rep;
+                            }
                             if !inhabits(&val, &ft.return_type) || !val.as_type().matches(&ft.return_type) {
                                 rep.violation = Some((
                                     "result-type".into(),
@@ -939,7 +990,43 @@ pub fn gen(seed: u64, boot_seed: u64, run: u64, faulty: bool) -> Scenario {
             faults.push((rng.below(calls.len()), kinds[0], rng.below(2) as u8));
         }
     }
-    Scenario { boot_seed, key_seed, init, calls, faults, stdin }
+    // one run in twelve: a world with unwritable files in which calls only read, write and copy
+    let mut readonly = Vec::new();
+    if rng.chance(1, 12) {
+        for (p, c) in &init {
+            if c.is_some() && rng.chance(2, 3) {
+                readonly.push(p.clone());
+            }
+        }
+        if !readonly.is_empty() {
+            let contents_of = |p: &str| init.iter().find(|(q, _)| q == p).and_then(|(_, c)| c.clone()).map(|b| String::from_utf8_lossy(&b).into_owned());
+            for c in calls.iter_mut() {
+                if !c.func.starts_with("fs.") {
+                    continue;
+                }
+                let p0 = c.args.first().cloned().unwrap_or_default();
+                match rng.below(4) {
+                    0 => {
+                        c.func = "fs.file_read_to_string".into();
+                        c.args = vec![p0];
+                    }
+                    1 => {
+                        let ro = readonly[rng.below(readonly.len())].clone();
+                        c.func = "fs.copy_file".into();
+                        c.args = vec![p0, ro];
+                    }
+                    k => {
+                        // writing what the unwritable file already holds (k == 2) or something else
+                        let ro = readonly[rng.below(readonly.len())].clone();
+                        let same = contents_of(&ro).unwrap_or_default();
+                        c.func = "fs.write_to_file".into();
+                        c.args = vec![ro, if k == 2 { same } else { CONTENTS[rng.below(CONTENTS.len())].to_string() }];
+                    }
+                }
+            }
+        }
+    }
+    Scenario { boot_seed, key_seed, init, calls, faults, stdin, readonly }
 }
 
 // ---------------------------------------------------------------------------------------------
